@@ -17,6 +17,7 @@ MONORAIL = os.path.join(TARGET, "repo-hooks", "debug", "monorail")
 VX = os.path.join(TARGET, "harness", "release", "vx")
 VHELPER = os.path.join(TARGET, "harness", "release", "vhelper")
 SLOW_RESOLVE_SO = os.path.join(TARGET, "shim", "libslowresolve.so")
+SWAP_ON_OPEN_SO = os.path.join(TARGET, "shim", "libswaponopen.so")
 RUSTFLAGS = "--cfg tokio_unstable --cfg pnordahl_monorail_verif"
 
 
@@ -64,13 +65,14 @@ def ensure_built(need_cli=True, need_harness=True):
                 log(out[-6000:])
                 raise EngineError("build of %s failed" % name)
         # the slow-resolver fault injector (LD_PRELOAD shim, plain C)
-        shim_src = os.path.join(VERIF, "harness", "shim", "slow_resolve.c")
-        if need_harness and (not os.path.exists(SLOW_RESOLVE_SO) or os.path.getmtime(SLOW_RESOLVE_SO) < os.path.getmtime(shim_src)):
-            os.makedirs(os.path.dirname(SLOW_RESOLVE_SO), exist_ok=True)
-            r = subprocess.run(["cc", "-shared", "-fPIC", "-O1", "-o", SLOW_RESOLVE_SO, shim_src, "-ldl"], capture_output=True, text=True)
-            if r.returncode != 0:
-                log(r.stderr[-2000:])
-                raise EngineError("build of the slow-resolver shim failed")
+        for so, srcname in ((SLOW_RESOLVE_SO, "slow_resolve.c"), (SWAP_ON_OPEN_SO, "swap_on_open.c")):
+            shim_src = os.path.join(VERIF, "harness", "shim", srcname)
+            if need_harness and (not os.path.exists(so) or os.path.getmtime(so) < os.path.getmtime(shim_src)):
+                os.makedirs(os.path.dirname(so), exist_ok=True)
+                r = subprocess.run(["cc", "-shared", "-fPIC", "-O1", "-o", so, shim_src, "-ldl"], capture_output=True, text=True)
+                if r.returncode != 0:
+                    log(r.stderr[-2000:])
+                    raise EngineError("build of the %s shim failed" % srcname)
         for need, path in ((need_cli, MONORAIL), (need_harness, VX), (need_harness, VHELPER)):
             if need and not os.access(path, os.X_OK):
                 raise EngineError("expected build product %s is missing" % path)
